@@ -380,6 +380,38 @@ theorem reduce_perm (f : V → V → V) (hassoc : ∀ a b c, f (f a b) c = f a (
     rw [hcomm y x]
   | trans _ _ ih1 ih2 => exact ih1.trans ih2
 
+/-- container-level form: two executions in which the contributions to `k` arrive in different
+orders (and anything happens to other keys) leave the same value under `k` -/
+theorem reduce_order_independent (u : User K V A) (dflt : V) (m : Assoc K V)
+    (ops1 ops2 : List (Op K V A)) (k : K) (rop : Nat) (vs1 vs2 : List V) (habs : values m k = [])
+    (h1 : ops1.filter (fun o => o.key = k) = vs1.map (fun v => Op.reduce k v rop))
+    (h2 : ops2.filter (fun o => o.key = k) = vs2.map (fun v => Op.reduce k v rop))
+    (hp : vs1.Perm vs2)
+    (hassoc : ∀ a b c, u.reducer rop (u.reducer rop a b) c = u.reducer rop a (u.reducer rop b c))
+    (hcomm : ∀ a b, u.reducer rop a b = u.reducer rop b a) :
+    values (Dist.run (container u dflt) m ops1).state k
+      = values (Dist.run (container u dflt) m ops2).state k := by
+  rw [reduce_is_fold u dflt m ops1 k rop vs1 habs h1, reduce_is_fold u dflt m ops2 k rop vs2 habs h2]
+  exact reduce_perm _ hassoc hcomm _ _ hp
+
+omit [DecidableEq K] in
+theorem run_insertMultis (u : User K V A) (dflt : V) (k : K) (vs xs : List V) :
+    (Dist.run ⟨applyK u dflt⟩ xs (vs.map (fun v => Op.insertMulti k v))).state = xs ++ vs := by
+  induction vs generalizing xs with
+  | nil => simp [Dist.run]
+  | cons v r ih => simp only [List.map_cons, Dist.run, applyK]; rw [ih]; simp
+
+/-- multimap inserts executed on `k` (interleaved with anything on other keys) append their values
+in execution order; as a multiset the result does not depend on that order -/
+theorem multimap_inserts_append (u : User K V A) (dflt : V) (m : Assoc K V) (ops : List (Op K V A))
+    (k : K) (vs : List V)
+    (hops : ops.filter (fun o => o.key = k) = vs.map (fun v => Op.insertMulti k v)) :
+    values (Dist.run (container u dflt) m ops).state k = values m k ++ vs
+    ∧ ∀ vs', vs.Perm vs' → (values (Dist.run (container u dflt) m ops).state k).Perm (values m k ++ vs') := by
+  have h : values (Dist.run (container u dflt) m ops).state k = values m k ++ vs := by
+    rw [final_values_fold, hops]; exact run_insertMultis u dflt k vs _
+  exact ⟨h, fun vs' hp => h ▸ hp.append_left _⟩
+
 /-- `async_erase` removes every value of the key and nothing else -/
 theorem erase_removes_all (u : User K V A) (dflt : V) (m : Assoc K V) (k : K) :
     values (apply u dflt m (.erase k)).1 k = [] ∧ count (apply u dflt m (.erase k)).1 k = 0
